@@ -10,6 +10,7 @@ by the caller:
 from __future__ import annotations
 
 import random
+import sys
 from collections import Counter
 
 import gen as G
@@ -285,8 +286,13 @@ def eval_py(P, mode, gcases, text_route=False, decoy=True, aborts=None):
                 if decoy_rule is not None:
                     with_budget(1.0, lambda: py_outcomes(P, mode, decoy_rule, s, i), None)
                 held = disturb(P, mode, rules[0], s, i, disturb_kind(s, i))
+                rl0 = sys.getrecursionlimit()
                 pys = with_budget(CASE_BUDGET_S, lambda: py_outcomes(P, mode, rules[0], s, i), ["slow:no-result-within-budget"] * n_out)
                 undisturb(held)
+                if sys.getrecursionlimit() != rl0:
+                    # a parse request that leaves a process-wide setting changed alters what later (and concurrent) requests do
+                    pys = ["exc:recursion-limit-left-at-%d-by-the-request(was-%d)" % (sys.getrecursionlimit(), rl0)] * n_out
+                    sys.setrecursionlimit(rl0)
                 if pys[0].startswith("slow:"):
                     build_exc = "slow:skipped-after-slow-case"   # do not spend the budget again on this grammar
             else:
